@@ -576,7 +576,6 @@ Ev(e, s) ==
                                 IF ~Ok(r) THEN [a EXCEPT !.st = r.st] ELSE [a EXCEPT !.doc = r.doc, !.keys = Append(@, KeyOf(r.ctx, r.doc))],
                              [st |-> "ok", doc |-> acc.doc, keys |-> <<>>], Upto(Len(v.e))) IN
             IF ks.st # "ok" THEN Fail(acc, ks.st)
-            ELSE IF \E i \in DOMAIN ks.keys : IsContainer(ks.keys[i]) /\ e.op = "GROUP_BY" THEN Fail(acc, "unspec")   \* containers group under their (empty) spelling
             ELSE IF \E i, j \in DOMAIN ks.keys : ks.keys[i].k = "num" /\ ks.keys[j].k = "num" /\ ks.keys[i].int # ks.keys[j].int /\ NumCmp(ks.keys[i], ks.keys[j]) = 0 THEN Fail(acc, "unspec")
             ELSE LET firstIdx(i) == CHOOSE j \in 1..i : SameKey(ks.keys[j], ks.keys[i]) /\ \A x \in 1..(j - 1) : ~SameKey(ks.keys[x], ks.keys[i])
                      firsts == SelectSeq(Upto(Len(v.e)), LAMBDA i : firstIdx(i) = i)
